@@ -300,7 +300,10 @@ class ParseContext(ParserEngine):
         try:
             return exp(self)
         except TypeError as e:
-            if "arguments" in str(e):
+            # NOTE: only when binding the call failed, not for a TypeError
+            #   raised by what exp runs (a semantic action, for one)
+            tb = e.__traceback__
+            if (tb is None or tb.tb_next is None) and "arguments" in str(e):
                 return boundcall(exp, {}, self)
             raise
 
